@@ -48,7 +48,7 @@ func genRev(r *rand.Rand, n int, tier string, out *bufio.Writer) {
 		date := pick(r, []string{"2017-03-06T04:03:53Z", "2017-03-06T04:03:53.123456789Z", "2017-03-06T06:03:53+02:00"})
 		// the original declares its payload digest itself, correct but spelled its own way:
 		// 0 not declared, 1 upper-case hex, 2 lower-case base32, 3 algorithm written SHA-1
-		fmt.Fprintf(out, "rev %s %d %s %s %s %s %d %d\n", o, rt, hxs(head), hx(payload), hxs(pick(r, profiles)), hxs(date), r.Intn(2), pick(r, []int{0, 0, 0, 1, 2, 3}))
+		fmt.Fprintf(out, "rev %s %d %s %s %s %s %d %d\n", o, rt, hxs(head), hx(payload), hxs(pick(r, profiles)), hxs(date), r.Intn(2), pick(r, []int{0, 0, 0, 1, 2, 3})+10*pick(r, []int{0, 0, 1}))
 	}
 }
 
@@ -76,8 +76,12 @@ func runRev(toks []string) (string, string) {
 	}
 	defer os.RemoveAll(dir)
 	fields := [][2]string{{"WARC-Date", date}, {"Content-Type", "application/http"}, {"WARC-Target-URI", "http://example.com/x"}}
-	if spelling := t.nextInt(); spelling > 0 {
-		fields = append(fields, [2]string{"WARC-Payload-Digest", spelledDigest(spelling, payload)})
+	spelling := t.nextInt()
+	if spelling%10 > 0 {
+		fields = append(fields, [2]string{"WARC-Payload-Digest", spelledDigest(spelling%10, payload)})
+	}
+	if spelling >= 10 { // the original is itself marked as truncated
+		fields = append(fields, [2]string{"WARC-Truncated", "time"})
 	}
 	var obs, verdict string
 	verdict = "OK"
